@@ -251,6 +251,8 @@ def concrete_problem(ev: Dict[str, Any], charset: str, with_ping: bool) -> Optio
 
 
 def run_job(job) -> report.JobResult:
+    if job.get("kind") == "stream":
+        return job_stream(job)
     res = report.JobResult.new(job["name"])
     twin = job.get("twin", False)
     charset = job["charset"]
@@ -378,9 +380,86 @@ def run_job(job) -> report.JobResult:
     return res
 
 
+def job_stream(job) -> report.JobResult:
+    """whole SendEventResponse (both stacks): a sequence of events incl. an empty one and pings arrives in order, nothing lost"""
+    import sys
+    from . import gw
+    sys.unraisablehook = lambda *a: None
+    res = report.JobResult.new(job["name"])
+    iface = job["iface"]
+    eng = Engine(budget_s=600)
+    eng.render_opaque = True
+    d0 = SStr.fresh(1, "d0_", 0, 0x10FFFF, eng.solver)
+    d1 = SStr.fresh(1, "d1_", 0, 0x10FFFF, eng.solver)
+    for c in d0.items + d1.items:
+        eng.solver.add(z3.Or(c.e < 0xD800, c.e > 0xDFFF), c.e < 0xF0000)
+    shims = Shims().add(R, re=ReShim)
+    seqs = {"plain": lambda: [{"data": d0, "event": "a"}, {"data": d1, "id": "7"}],
+            "with-empty": lambda: [{"data": d0, "event": "a"}, {}, {"data": d1, "id": "7"}],
+            "empty-first": lambda: [{}, {"data": d0, "event": "a"}, {"data": d1, "id": "7"}]}
+
+    def fn():
+        items = seqs[job["seq"]]()
+        M = WR if iface == "wsgi" else AR
+        if iface == "wsgi":
+            def gen():
+                for it in items:
+                    yield dict(it)
+            ev, done = gw.run_wsgi(M.SendEventResponse(gen(), ping_interval=30), {"REQUEST_METHOD": "GET"})
+            wire = b"".join(x[1] for x in ev if x[0] == "body")
+        else:
+            async def gen():
+                for it in items:
+                    yield dict(it)
+            ev, done = gw.run_asgi(M.SendEventResponse(gen(), ping_interval=30), {"type": "http", "method": "GET", "headers": []}, use_loop=True)
+            wire = b"".join(x[1].get("body", b"") for x in ev if x[0] == "send" and x[1]["type"] == "http.response.body")
+        if not done or any(x[0] == "raise" for x in ev):
+            raise Fail("stream-did-not-complete", str([x for x in ev if x[0] == "raise"]))
+        events, last_id, retry = whatwg_parse(to_items((PING + wire).decode("utf-8")))
+        return events, last_id
+
+    def on_path(e, r):
+        kind, v = r
+        klass = detail = None
+        try:
+            if kind == "exc":
+                if isinstance(v, Fail):
+                    raise v
+                raise Fail(f"exception:{type(v).__name__}", repr(v))
+            if job.get("twin"):
+                raise Fail("twin-assert-false")
+            events, last_id = v
+            if len(events) != 2:
+                raise Fail("events-lost-or-duplicated", f"{len(events)} events dispatched for 2 yielded events with data")
+            (t0, x0, _), (t1, x1, i1) = events
+            if not (items_equal(e, x0, expected_data(d0.items)) and items_equal(e, x1, expected_data(d1.items))):
+                raise Fail("events-reordered-or-altered")
+            if not items_equal(e, t0, [97]) or not items_equal(e, t1, []) or not items_equal(e, i1, [55]):
+                raise Fail("event-fields-mixed-up")
+        except Fail as f:
+            klass, detail = f.klass, f.detail
+        e.last_sat = False
+        m = e.witness()
+        wit = {"iface": iface, "sequence": job["seq"], "data": [conc(d0, m), conc(d1, m)]}
+        if klass is not None:
+            res.violation(f"C19/SendEventResponse/{iface}/{klass.split(':')[0]}", wit, f"{klass} {detail}", True)
+            return
+        res.kind("one-event")
+        res["validated"] += 0
+        res.sample({"iface": iface, "sequence": job["seq"]}, limit=1)
+
+    with shims:
+        eng.explore(fn, on_path)
+    res.absorb_engine(eng)
+    return res
+
+
 def jobs(tier: str):
     b = META["bounds"][tier]
     out = []
+    for iface in ("wsgi", "asgi"):
+        for seq in ("plain", "with-empty", "empty-first"):
+            out.append(dict(name=f"stream/{iface}/{seq}", kind="stream", iface=iface, seq=seq, charset="utf-8", fields=[]))
     for charset in b["charsets"]:
         for ld in range(0, b["data_len_max"] + 1):
             out.append(dict(name=f"{charset}/data{ld}", charset=charset, fields=["data"], ld=ld, weight=4 ** ld))
